@@ -126,7 +126,7 @@ CHECKS = {
         'Theorems (Props_C11.v, closed): C11_truth (own t = Some w <-> t in wbs_tasks w), C11_reach, C11_whole_subtree / C11_subtree / C11_subtree_children, C11_removed_list / _wbs / _assignment / _list_all / _wbs_all (removed task: no owner, no parent [except a match below another match], in no WBS, ownership guard can no longer reject it).',
         GT, '4.11'),
     'C15': (
-        'Coq proof that a non-OK outcome leaves the state unchanged for all 24 operation kinds (every setter validates before it writes; sequences of setter calls - constructor, list-level << / >>, bulk parent - are undone as a whole; remove_all loops never raise on WF states), refutation witnesses for the three sequences without the undo (the code before fix 0693848) + full-snapshot comparison before/after every raising call of generated histories',
+        'Coq proof that a non-OK outcome leaves the state unchanged for all 24 operation kinds (every setter validates before it writes; sequences of setter calls - constructor, list-level << / >>, bulk parent - are undone as a whole; remove_all loops never raise on WF states), refutation witnesses for the three sequences without the undo (the code before fix 0693848) + full-snapshot comparison before/after every raising call of generated histories + the four relation setters and nine list-facade methods translated from the source text a second time with raise as a value and proved to hand back the heap they were given whenever they raise - setters, move, insert, reorder on every heap (gen/SrcGraph.v _x definitions, Graph/SrcGraphAtomic.v, C15_src_*)',
         'Theorems (Props_C15.v, closed): C15_atomic / C15_atomic_core (21 kinds, all states), C15_atomic_every_op (all 24 kinds under WF), C15_atomic_reach (every state reached by a public history), C15_remove_all_never_raises, C15_all_or_nothing; C15_refuted_lst_shift, C15_refuted_lst_set_parent, C15_refuted_new_task_rel refute the bare sequences (finding F10, repaired in /repo by 0693848).',
         GT, '4.15'),
     'C16': (
